@@ -17,7 +17,7 @@ def gen(tier, rng, shard, nshards):
         case = {"n": n, "dt": dt, "normal": bool(rng.random() < 0.4), "seed": S.seed(rng), "cols": int(S.pick(rng, [0, 1, 3])),
                 "rhs": S.pick(rng, ["generic", "generic", "eigvec", "few-eigvecs"]), "x0": S.pick(rng, ["none", "none", "zero", "random"]),
                 "tol": float(S.pick(rng, [1e-12, 1e-12, 1e-8, 1e-6])), "via": S.pick(rng, ["gmres", "gmres", "inv"]),
-                "ms": S.pick(rng, ["sweep", "sweep", "beyond"]), "wide_rhs": bool(rng.random() < 0.2),
+                "ms": S.pick(rng, ["sweep", "sweep", "beyond"]), "wide_rhs": bool(rng.random() < 0.2), "narrow_rhs": S.pick(rng, [None, None, None, "int", "bool", "single"]),
                 "colscale": S.pick(rng, [None, None, None, "tiny", "mixed"]), "opscale": float(S.pick(rng, [1.0, 1.0, 1.0, 1e-9, 1e9]))}
         if 2 <= n <= 8 and rng.random() < 0.12:
             case["cols"] = n  # a square right-hand-side block: as many columns as the operator has rows
@@ -138,6 +138,18 @@ def build(case):
         b = b * 1e-13  # a right-hand side of tiny norm: the solve is linear in b, every oracle is relative to ||r0|| per column
     elif cs == "mixed":
         b = b * np.resize(np.array([1e-12, 1.0, 1e8]), b.shape[1])[None, :]
+    nr = case.get("narrow_rhs")
+    if nr and case["rhs"] == "generic" and not cs and not (not cplx and case.get("wide_rhs")) and case["x0"] in ("none", "zero"):
+        # a right-hand side of a *narrower* kind than the working precision: integers, booleans, single precision (all legal
+        # operands; the solve runs in the promoted dtype)
+        if nr == "int" and not cplx:
+            b = np.round(3 * b).astype(np.int64)
+            b[0] = np.where(b[0] == 0, 1, b[0])
+        elif nr == "bool" and not cplx:
+            b = b > 0
+            b[0] = True
+        else:
+            b = b.astype(np.complex64 if cplx else np.float32)
     if case["cols"] == 0:
         b = b[:, 0]
     if case["x0"] == "none":
